@@ -105,3 +105,8 @@ pub type EvmState = HashMap<Address, Account>;
 #[verifier::external_body] proof fn axiom_address_key_model() ensures vstd::std_specs::hash::obeys_key_model::<Address>() {}
 /// typed view (pins the element type of a Vec whose type rustc only infers from a later `push`)
 pub open spec fn tr(v: &Vec<(Address, TransitionAccount)>) -> Seq<(Address, TransitionAccount)> { v@ }
+/// the transition (if any) that dispatching (a, acc) produced has been collected into `out`
+pub open spec fn collected(out: Seq<(Address, TransitionAccount)>, a: Address, acc: Account) -> bool {
+    dispatch_of(acc) is Untouched || exists|rr: Option<TransitionAccount>| #[trigger] produced(dispatch_of(acc), rr)
+        && (match rr { Some(t) => exists|i: int| 0 <= i < out.len() && #[trigger] out[i] == (a, t), None => true })
+}
